@@ -112,6 +112,7 @@ Definition rec_in_range_b (topics : list bytes) (r : krec) : bool :=
    which = 3  commit of raw events
                         case ((topic ...) ((sid packed) ...))
                         obs  (status (marks-after-each-commit ...))
+   which = 4  consumer-group session on the real Assigned / Lost / pconsumer goroutines: see c10_session_run
    status: 0 = all commits returned, 2 = a Commit panicked with index out of range (the run stops there) *)
 
 Definition z4_of_sx (s : sx) : option (Z * Z * Z * Z) :=
@@ -274,6 +275,175 @@ Definition c10_raw_run (case obs : sx) : verdict :=
   | _ => BadCase
   end.
 
+(* ---- which = 4: a consumer-group session (harness/c10/session.go) ----------------------------
+   case ((topic ...) (op ...) (k ...)) with
+     op (0 (ti part) ...)                    splitConsume.Assigned: one pconsumer per (topic NAME, partition)
+        (1 ti part (off epoch) ...)          a polled fetch, routed to the partition's consumer when there is one
+                                             (consumer.go:95-103), otherwise dropped ("consumer not ready yet")
+        (2 (ti part) ...)                    splitConsume.Lost after everything routed so far was delivered
+        (3 ((ti part) ...) (fetch ...))      Lost while the fetches are buffered: a lost partition delivers the first
+                                             c of its k fetches, 1 <= c <= k (the select of pconsumer.consume between the
+                                             closed quit and the non-empty channel is a free choice; the first fetch is
+                                             already being delivered when Lost starts), c = 0 when k = 0; the other
+                                             partitions deliver everything
+   obs  ((c ...) ((sid (packed ...)) ...) status (marks-after-each-commit ...))
+   The c's are read from the observation (one per lost partition of every op 3, in order) and checked against
+   their bounds; given them the delivered events are determined. Commit is called for the (k mod n)-th of the n
+   delivered events, in group order. The map of consumers is keyed by topic name: the key here is (name, partition).
+   Assigned of a partition that has a consumer (the old goroutine would leak) and Lost of one that has none (nil
+   dereference in consumer.go:66) never happen under kgo's callbacks: BadCase. *)
+Inductive sop : Type :=
+| SAssign (tps : list key)
+| SFetch (k : key) (rs : list krec)
+| SLost (tps : list key)
+| SGated (tps : list key) (fs : list (key * list krec)).
+
+Definition tp_of_sx (topics : list bytes) (s : sx) : option key :=
+  match s with
+  | SL [SZ ti; SZ p] => match idx topics ti with Ok name => Some (name, p) | _ => None end
+  | _ => None
+  end.
+Definition fetch_of_sx (topics : list bytes) (s : sx) : option (key * list krec) :=
+  match s with
+  | SL (SZ ti :: SZ p :: recs) =>
+      match idx topics ti, opt_map z2_of_sx recs with
+      | Ok name, Some oes =>
+          Some ((name, p), map (fun oe : Z * Z => {| k_topic := name; k_part := p; k_off := fst oe; k_epoch := snd oe |}) oes)
+      | _, _ => None
+      end
+  | _ => None
+  end.
+Definition sop_of_sx (topics : list bytes) (s : sx) : option sop :=
+  match s with
+  | SL [SZ 3; SL tps; SL fs] =>
+      match opt_map (tp_of_sx topics) tps, opt_map (fetch_of_sx topics) fs with
+      | Some a, Some b => Some (SGated a b)
+      | _, _ => None
+      end
+  | SL (SZ 0 :: tps) => option_map SAssign (opt_map (tp_of_sx topics) tps)
+  | SL (SZ 1 :: f) => option_map (fun kr : key * list krec => SFetch (fst kr) (snd kr)) (fetch_of_sx topics (SL f))
+  | SL (SZ 2 :: tps) => option_map SLost (opt_map (tp_of_sx topics) tps)
+  | _ => None
+  end.
+
+Record sstate : Type := {
+  ss_live : list key;                      (* partitions that have a consumer *)
+  ss_deliv : list (key * list krec);       (* per partition the delivered records, latest first *)
+  ss_cs : list Z;                          (* observed c's not yet used *)
+  ss_ok : bool;                            (* every c so far was inside its bounds *)
+  ss_bad : bool                            (* the script left the callbacks' protocol *)
+}.
+Definition key_mem (k : key) (l : list key) : bool := existsb (key_eqb k) l.
+Fixpoint keys_nodup (l : list key) : bool :=
+  match l with [] => true | k :: r => negb (key_mem k r) && keys_nodup r end.
+Definition keys_remove (l del : list key) : list key := filter (fun k => negb (key_mem k del)) l.
+Fixpoint deliv_add (d : list (key * list krec)) (k : key) (rs : list krec) : list (key * list krec) :=
+  match d with
+  | [] => [(k, rev_append rs [])]
+  | (k', l) :: r => if key_eqb k' k then (k', rev_append rs l) :: r else (k', l) :: deliv_add r k rs
+  end.
+(* the gated fetches: the ones of surviving partitions are delivered, the ones of lost partitions are kept aside *)
+Fixpoint gated_route (live lost : list key) (d : list (key * list krec)) (fs : list (key * list krec))
+  : list (key * list krec) * list (key * list krec) :=
+  match fs with
+  | [] => (d, [])
+  | (k, rs) :: r =>
+      if negb (key_mem k live) then gated_route live lost d r
+      else if key_mem k lost then let '(d', held) := gated_route live lost d r in (d', (k, rs) :: held)
+      else gated_route live lost (deliv_add d k rs) r
+  end.
+Fixpoint gated_lost (held : list (key * list krec)) (tps : list key) (st : sstate) : sstate :=
+  match tps with
+  | [] => st
+  | tp :: r =>
+      let bs := map snd (filter (fun f : key * list krec => key_eqb (fst f) tp) held) in
+      let k := Z.of_nat (length bs) in
+      let '(c, cs', have) := match ss_cs st with c :: cs' => (c, cs', true) | [] => (0, [], false) end in
+      let valid := have && (if k =? 0 then c =? 0 else (1 <=? c) && (c <=? k)) in
+      let d := fold_left (fun d b => deliv_add d tp b) (firstn (Z.to_nat c) bs) (ss_deliv st) in
+      gated_lost held r {| ss_live := ss_live st; ss_deliv := d; ss_cs := cs'; ss_ok := ss_ok st && valid; ss_bad := ss_bad st |}
+  end.
+Definition sstep (st : sstate) (o : sop) : sstate :=
+  match o with
+  | SAssign tps =>
+      let bad := negb (keys_nodup tps) || existsb (fun k => key_mem k (ss_live st)) tps in
+      {| ss_live := tps ++ ss_live st; ss_deliv := ss_deliv st; ss_cs := ss_cs st; ss_ok := ss_ok st; ss_bad := ss_bad st || bad |}
+  | SFetch k rs =>
+      if key_mem k (ss_live st)
+      then {| ss_live := ss_live st; ss_deliv := deliv_add (ss_deliv st) k rs; ss_cs := ss_cs st; ss_ok := ss_ok st; ss_bad := ss_bad st |}
+      else st
+  | SLost tps =>
+      let bad := negb (keys_nodup tps) || negb (forallb (fun k => key_mem k (ss_live st)) tps) in
+      {| ss_live := keys_remove (ss_live st) tps; ss_deliv := ss_deliv st; ss_cs := ss_cs st; ss_ok := ss_ok st; ss_bad := ss_bad st || bad |}
+  | SGated tps fs =>
+      let bad := negb (keys_nodup tps) || negb (forallb (fun k => key_mem k (ss_live st)) tps) in
+      let '(d, held) := gated_route (ss_live st) tps (ss_deliv st) fs in
+      let st1 := gated_lost held tps
+                   {| ss_live := ss_live st; ss_deliv := d; ss_cs := ss_cs st; ss_ok := ss_ok st; ss_bad := ss_bad st || bad |} in
+      {| ss_live := keys_remove (ss_live st1) tps; ss_deliv := ss_deliv st1; ss_cs := ss_cs st1; ss_ok := ss_ok st1; ss_bad := ss_bad st1 |}
+  end.
+
+(* groups ((sid, records in delivery order) ...) sorted by source id *)
+Definition sgroup := (Z * list krec)%type.
+Fixpoint insert_group (x : sgroup) (l : list sgroup) : list sgroup :=
+  match l with
+  | [] => [x]
+  | y :: r => if fst x <? fst y then x :: l else y :: insert_group x r
+  end.
+Definition groups_of (topics : list bytes) (d : list (key * list krec)) : list sgroup :=
+  fold_right insert_group []
+    (map (fun e : key * list krec =>
+            (assemble_source_id (id_by_topic topics (fst (fst e))) (snd (fst e)), rev_append (snd e) []))
+         (filter (fun e : key * list krec => match snd e with [] => false | _ => true end) d)).
+
+Definition c10_session_run (case obs : sx) : verdict :=
+  match case with
+  | SL [SL ts; SL ops; SL order] =>
+      match opt_map as_B ts, opt_map as_Z order with
+      | Some topics, Some ks =>
+          match opt_map (sop_of_sx topics) ops with
+          | Some sops =>
+              let cs_obs := match obs with
+                            | SL (SL cs :: _) => match opt_map as_Z cs with Some l => l | None => [] end
+                            | _ => []
+                            end in
+              let st := fold_left sstep sops {| ss_live := []; ss_deliv := []; ss_cs := cs_obs; ss_ok := true; ss_bad := false |} in
+              if ss_bad st then BadCase else
+              let groups := groups_of topics (ss_deliv st) in
+              let rs := concat (map snd groups) in
+              let evs := map (event_of topics) rs in
+              let n := Z.of_nat (length evs) in
+              let idxs := if n =? 0 then [] else map (fun k => k mod n) ks in
+              match pick evs idxs with
+              | Some calls =>
+                  let '(tr, stt) := commit_trace topics [] calls in
+                  let model :=
+                    SL [SL (map SZ cs_obs);
+                        SL (map (fun g : sgroup => SL [SZ (fst g); SL (map (fun r => SZ (snd (event_of topics r))) (snd g))]) groups);
+                        SZ stt; SL (map sx_of_marks tr)] in
+                  let pred :=
+                    ss_ok st && (match ss_cs st with [] => true | _ => false end) &&
+                    match obs with
+                    | SL [SL _; SL _; SZ ost; SL osteps] =>
+                        match opt_map (as_list mark_of_sx) osteps with
+                        | Some steps =>
+                            marks_pred topics rs steps
+                            && (if forallb (rec_in_range_b topics) rs
+                                then (ost =? 0) && (Z.of_nat (length steps) =? Z.of_nat (length idxs)) else true)
+                        | None => false
+                        end
+                    | _ => false
+                    end in
+                  verdict_of model obs pred
+              | None => BadCase
+              end
+          | None => BadCase
+          end
+      | _, _ => BadCase
+      end
+  | _ => BadCase
+  end.
+
 Definition c10_entry (which : Z) (case obs : sx) : verdict :=
   match which with
   | 0 =>
@@ -291,5 +461,6 @@ Definition c10_entry (which : Z) (case obs : sx) : verdict :=
       end
   | 2 => c10_commit_run case obs
   | 3 => c10_raw_run case obs
+  | 4 => c10_session_run case obs
   | _ => BadCase
   end.
